@@ -474,9 +474,9 @@ func looseAttrMatch(exp markupExpect, got *markup.ParseResult) bool {
 // generator
 
 var (
-	markupNames   = []string{"a", "b", "i", "wave", "x1", "é", "日本", "shake_it", "B"}
+	markupNames   = []string{"a", "b", "i", "wave", "x1", "é", "日本", "shake_it", "B", "_tmp", "_"}
 	markupTextBit = []string{"x", "hello", "wor ld", " ", "  ", "é", "日本語", "😀", "a:b", ".", ",", "!", "\t", " ", "tail ", " head", "José", "1", "%", "=", "/", "\"", "<", "{"}
-	propNames     = []string{"p", "q", "size", "colour", "é", "n1", "trimwhitespace_", "v"}
+	propNames     = []string{"p", "q", "size", "colour", "é", "n1", "trimwhitespace_", "v", "_k"}
 	wordValues    = []string{"red", "big", "é", "x_1", "True1", "falsey", "nul"}
 	quotedValues  = []string{"", "two words", "a]b", "[x]", "é 日", "it's", `say "hi"`, "100%", " padded "}
 	intValues     = []string{"0", "1", "2", "3", "7", "11", "12", "13", "21", "22", "23", "42", "101", "111", "112", "007", "1000000"}
@@ -535,14 +535,18 @@ func genText(t *rapid.T) string {
 func genReplacement(t *rapid.T) mseg {
 	switch rapid.IntRange(0, 3).Draw(t, "rep") {
 	case 0:
-		keys := []string{"m", "f", "nb", "1", "2"}
+		keys := []string{"m", "f", "nb", "1", "2", "True", "False"}
 		k := rapid.IntRange(0, len(keys)-1).Draw(t, "key")
 		seg := mseg{K: "select", Name: "select"}
-		kind := "word"
-		if keys[k] == "1" || keys[k] == "2" {
+		kind, lit := "word", keys[k]
+		switch keys[k] {
+		case "1", "2":
 			kind = "int"
+		case "True", "False":
+			// a boolean value selects the case named by its display form
+			kind, lit = "bool", strings.ToLower(keys[k])
 		}
-		seg.Props = append(seg.Props, mprop{"value", kind, keys[k]})
+		seg.Props = append(seg.Props, mprop{"value", kind, lit})
 		for _, key := range keys {
 			seg.Props = append(seg.Props, mprop{key, "quoted", rapid.SampledFrom([]string{"he", "she", "they %", "[%]", "é", `50\% of %`, `%\`, `\%`}).Draw(t, "case")})
 		}
